@@ -1,6 +1,6 @@
 // Package simhook contains the seams used by the deterministic simulation
 // harness (build tag "verif"). Without the tag every function is an empty
 // stub that the compiler removes, so the shipped behaviour is unchanged.
-// With the tag, every function forwards to H, which is nil (inert) unless a
-// simulation is active.
+// With the tag, every function forwards to the handler installed with
+// SetHandler, which is nil (inert) unless a simulation is active.
 package simhook
